@@ -32,6 +32,8 @@ pub enum Case {
     Dates { bmask: u8, smask: Option<u8>, hols: u8 },
     Months { start: i64, roll: u8 },
     Csolve { k: usize, sites: u8, ny: i8, left_n: usize, right_n: usize, lsq: bool },
+    /// the smallest splines: order k, n basis functions (knots 0, 1, 2, ..), `ntau` sites, `ntau + ny` values
+    CsolveTiny { k: usize, n: usize, ntau: usize, ny: i8, left_n: usize, right_n: usize, lsq: bool },
     /// document id, tagged entry point?, index of the first mutation; `pairs`: also apply every second mutation
     Json { doc: String, tagged: bool, m1: usize, pairs: bool },
 }
@@ -466,6 +468,11 @@ fn fx_shape(f: &FXRates) -> Result<(), String> {
     };
     if !shape_ok {
         return Err("matrix-shape".into());
+    }
+    // a market never holds quotes with different settlement dates (construction rejects them)
+    let setts: Vec<_> = q.iter().map(|r| hooks::fxrate_parts(r).3).collect();
+    if setts.windows(2).any(|w| w[0] != w[1]) {
+        return Err(format!("settlement-dates-differ: {:?}", setts));
     }
     for r in q.iter() {
         let (l, rr, num, _) = hooks::fxrate_parts(r);
@@ -923,6 +930,50 @@ pub fn check(case: &Case, idx: u64, acc: &mut Acc) {
                 }
             }
         }
+        Case::CsolveTiny { k, n, ntau, ny, left_n, right_n, lsq } => {
+            progress(idx);
+            let (k, n) = (*k, *n);
+            let t: Vec<f64> = (0..n + k).map(|j| j as f64).collect();
+            let hi = (n + k) as f64 - 1.0;
+            let tau: Vec<f64> = (0..*ntau).map(|j| if *ntau == 1 { 0.5 * hi } else { hi * j as f64 / (*ntau - 1) as f64 }).collect();
+            let ylen = (*ntau as i64 + *ny as i64).max(0) as usize;
+            let y: Vec<f64> = (0..ylen).map(|j| 1.0 + 0.25 * j as f64).collect();
+            acc.nontrivial();
+            acc.evals_add(3);
+            // the (infallible) constructor is not under test: a spline it refuses to build is skipped
+            let built = guarded(|| PPSpline::<f64>::new(k, t.clone(), None)).is_ok();
+            if !built {
+                acc.skip();
+                return;
+            }
+            let r = guarded(|| {
+                let mut s = PPSpline::<f64>::new(k, t.clone(), None);
+                let a = s.csolve(&tau, &y, *left_n, *right_n, *lsq);
+                let inv = if a.is_ok() { spline_shape(&s, &|_| Ok(())) } else { Ok(()) };
+                let mut sd = PPSpline::<Dual>::new(k, t.clone(), None);
+                let yd: Vec<Dual> = y.iter().enumerate().map(|(j, v)| Dual::new(*v, vec![format!("y{}", j)])).collect();
+                let b = sd.csolve(&tau, &yd, *left_n, *right_n, *lsq);
+                let invd = if b.is_ok() { spline_shape(&sd, &dual_shape) } else { Ok(()) };
+                let mut s2 = PPSpline::<Dual2>::new(k, t.clone(), None);
+                let y2: Vec<Dual2> = y.iter().enumerate().map(|(j, v)| Dual2::new(*v, vec![format!("y{}", j)])).collect();
+                let c = s2.csolve(&tau, &y2, *left_n, *right_n, *lsq);
+                // evaluation on whatever came out must return, too
+                let _ = s.ppdnev_single(&(0.5 * hi), 0);
+                (a.is_ok(), inv, b.is_ok(), invd, c.is_ok())
+            });
+            match r {
+                Err(msg) => acc.violate(&format!("csolve/tiny/panic/{}", panic_class(&msg)), idx, cj(), json!({"t": t, "tau": tau, "y_len": ylen, "want": "Ok or Err"}), json!(msg)),
+                Ok((a, inv, b, invd, c)) => {
+                    acc.outcome(&(a, b, c, k, n, *ntau));
+                    for (ty, e) in [("f64", inv), ("Dual", invd)] {
+                        if let Err(e) = e {
+                            acc.violate(&format!("csolve/tiny/{}/invariant", ty), idx, cj(), json!("c.len() == n"), json!(e));
+                        }
+                    }
+                    let _ = (a, b, c); // (whether a degenerate one-site system counts as singular may differ by data type)
+                }
+            }
+        }
         Case::Json { doc, tagged, m1, pairs } => {
             progress(idx);
             let base_text = valid_json(doc, *tagged);
@@ -1101,6 +1152,21 @@ pub fn cases(tier: Tier) -> Vec<Case> {
             }
         }
     }
+    for k in 1..=3usize {
+        for n in 0..=3usize {
+            for ntau in 0..=3usize {
+                for ny in [-1i8, 0, 1] {
+                    for left_n in 0..=2usize {
+                        for right_n in 0..=2usize {
+                            for lsq in [false, true] {
+                                out.push(Case::CsolveTiny { k, n, ntau, ny, left_n, right_n, lsq });
+                            }
+                        }
+                    }
+                }
+            }
+        }
+    }
     out
 }
 
@@ -1117,13 +1183,13 @@ fn evidence_meta(ctx: &Ctx, ncases: usize) -> Meta {
          masks x holiday patterns; add_months from 16 start dates for EVERY offset landing in 1970-2200 (up to +-2772) x \
          35 roll kinds x 5 modifiers x 2 flags. csolve: k = 2..4 (5) x ten site layouts (proper, too few, too many, \
          empty, all equal, all in the first span, outside the domain, descending, NaN, many) x y-length -1/0/+1 x \
-         left_n, right_n in 0..k+1 x allow_lsq, for f64 and Dual data. JSON: for 17 valid documents covering the 10 \
+         left_n, right_n in 0..k+1 x allow_lsq, for f64 and Dual data; the smallest splines (k = 1..3, 0..3 basis functions, 0..3 sites, y-length -1/0/+1, end orders 0..2, allow_lsq) for all three data types. JSON: for 17 valid documents covering the 10 \
          object kinds, through the typed and the tagged entry point: EVERY single mutation (delete a field or element, \
          duplicate an element, duplicate a field textually, replace a leaf by each of {0,-1,1e308,\"\",\"zzz\",null,[], \
          {},true} or a container by {0,null,[],{}}, swap two sibling values, give an array document every other shape of compatible element count) and, for documents of <= 26 (44) nodes, \
          EVERY pair of mutations. Oracle: the call returns (a panic or an abnormal child exit is a violation); Ok(v) => \
          v satisfies its shape invariants (Dual: |vars| = |dual|; Dual2: also n x n; FXRates: n = quotes + 1, n x n, \
-         quoted pairs answer with exactly the stored quote; PPSpline: n = |t| - k, |c| = n, coefficients well-formed; NamedCal: behaves as its name). \
+         quoted pairs answer with exactly the stored quote, one settlement date for all quotes; PPSpline: n = |t| - k, |c| = n, coefficients well-formed; NamedCal: behaves as its name). \
          Non-trivial: mutated documents, extreme day counts, improper site layouts, offsets beyond +-1200 months.",
         json!({"cases": ncases, "child_process": true}),
     )
